@@ -8,8 +8,13 @@ ASSUMPTIONS = ["PYTHONHASHSEED influences the engine only through the iteration 
 def run(ctx):
     seeds = [str(x) for x in ((0, 1, 2, 3, 7, 11, 12345, 4294967295) if ctx["tier"] == "quick" else
                               list(range(0, 24)) + [12345, 99999, 4294967295, 31337, 65536, 777, 4242, 2**31])]
-    cov, viol = E.run_engine(ctx, "c07", ["plain", "flags"], 40, 400, {"tree", "ends", "parse"},
+    cov, viol = E.run_engine(ctx, "c07", ["plain", "flags"], 40, 400, {"tree", "ends", "parse", "build"},
                              hashseeds=seeds, shards=1)
     cov["rule"] += ("; the SAME cases are run by fresh interpreter processes under each PYTHONHASHSEED listed in "
                     "hash_seeds and each run is compared, tree for tree, with the model's unique answer")
-    return {"coverage": cov, "violations": viol}
+    import hist_common as H
+    cov2, viol2 = H.run_hist(ctx, "history-free", 12, 200, shards=2)
+    cov["history_scenarios"] = cov2.get("stats")
+    cov["rule"] += ("; history: two grammar classes with the same rule names (and class name) alive at once, requests alternating between them, "
+                    "and a request aborted by RecursionError then repeated: every answer vs a cold twin")
+    return {"coverage": cov, "violations": viol + viol2}
